@@ -271,6 +271,7 @@ package memefish
 // @   ensures result1 ==> noPanic
 // @   ensures[C13,C14] closed: !result1 ==> l.pos >= old(l.pos) + 2 * len(q) && l.Buffer[l.pos - len(q):l.pos] == q
 // @   panics when !noPanic
+// @   ensures[C03,C15] identne: !result1 && name == "identifier" && len(q) == 1 ==> len(result0) > 0
 // @   modifies l.pos, l.File.lines
 // @   loop 0 invariant LexInv(l) && l.pos == old(l.pos) && len(q) <= i && l.pos + i <= len(l.Buffer) && (hasError ==> noPanic) && l.File.lines == old(l.File.lines)
 // @   loop 0 decreases len(l.Buffer) - l.pos - i
@@ -380,6 +381,7 @@ package memefish
 // @   ensures[C14] word: p < len(l.Buffer) && isIdentStart(b0) && !strLitAt(l.Buffer, p) && !bytesLitAt(l.Buffer, p) ==> identRun(l.Buffer, p, l.pos) && ((l.Token.Kind == "<ident>" && isSub(l.Token.AsString, l.Buffer, p, l.pos)) || (len(l.Token.Kind) == l.pos - p && (forall k: 0 <= k && k < l.pos - p ==> l.Token.Kind[k] == upperOf(l.Buffer[p + k])) && isKeywordStr(l.Token.Kind)))
 // @   ensures[C14] illegal: p < len(l.Buffer) && !single1(b0) && b0 != '<' && b0 != '>' && b0 != '+' && b0 != '-' && b0 != '=' && b0 != '|' && b0 != '!' && b0 != '@' && b0 != '.' && b0 != 96 && !isDigit(b0) && !isQ(b0) && !isIdentStart(b0) ==> l.Token.Kind == "<bad>" && l.pos == p + 1
 // @   panics when !noPanic
+// @   ensures[C03,C15] identne: l.Token.Kind == "<ident>" ==> len(l.Token.AsString) > 0
 // @   modifies l.pos, l.Token.Kind, l.Token.AsString, l.Token.Base, l.dotIdent, l.File.lines
 // @   loop 0 invariant LexInv(l) && l.pos == old(l.pos) && 1 <= i && l.pos + i <= len(l.Buffer) && l.Token.Kind == old(l.Token.Kind) && l.dotIdent == old(l.dotIdent)
 // @   loop 0 invariant[C14] forall k: l.pos + 1 <= k && k < l.pos + i ==> isIdentPart(l.Buffer[k])
@@ -406,6 +408,7 @@ package memefish
 // @   ensures !noPanic ==> l.Token.Kind != "<bad>"
 // @   ensures[C12,C14] punct1: punct1(l, old(l.pos))
 // @   panics when !noPanic
+// @   ensures[C03,C15] identne: l.Token.Kind == "<ident>" ==> len(l.Token.AsString) > 0
 // @   modifies l.pos, l.Token.Kind, l.Token.AsString, l.Token.Base, l.dotIdent, l.File.lines
 // @   loop 0 invariant LexInv(l) && l.pos == old(l.pos) && 0 <= i && l.pos + i <= len(l.Buffer) && (i == 0 ==> l.pos < len(l.Buffer) && isIdentPart(l.Buffer[l.pos]))
 // @   loop 0 invariant[C14] forall k: l.pos <= k && k < l.pos + i ==> isIdentPart(l.Buffer[k])
@@ -443,6 +446,7 @@ package memefish
 // @   ensures[C10] gap: (len(l.Token.Space) > 0 || len(l.Token.Comments) > 0) == (l.Token.Pos > old(l.pos))
 // @   ensures l.Token.Kind != ""
 // @   panics when !noPanic
+// @   ensures[C03,C15] identne: l.Token.Kind == "<ident>" ==> len(l.Token.AsString) > 0
 // @   modifies l.pos, l.Token.*, l.lastTokenKind, l.dotIdent, l.File.lines
 // @   loop 0 invariant LexInv(l) && old(l.pos) <= l.pos && l.pos == triviaEnd(l, old(l.pos))
 // @   loop 0 invariant commentsOK(l, old(l.pos))
